@@ -12,3 +12,11 @@ OBS = [
  Ob(['C03', 'C10', 'C11', 'C16'], 'sqs_n5', 'jd', 'harness/jd_str.c', 'h_sqs', defs=U + ['NB=5'], unwind=9, fs='none', cap=300, hunwind=24,
     desc='skipQuotedString agrees with the parser on accepted strings, never accepts an unterminated one', bound='either quote + all strings of 5 bytes'),
 ]
+L = dict(fs='none', cap=200, hunwind=24)
+OBS += [
+ Ob(['C10'], 'charclasses', 'jd', 'harness/jd_leaf.c', 'h_charclasses', defs=U, unwind=3, desc='canBeInNumber / canBeInNonQuotedString / isQuote', bound='all 256 characters', **L),
+ Ob(['C10', 'C17', 'C03'], 'hex4', 'jd', 'harness/jd_leaf.c', 'h_hex4', defs=U, unwind=6, desc='parseHex4 == reference (value, case folding, InvalidInput on non-hex, IncompleteInput on NUL/end)', bound='all 2^32 4-byte inputs x length 0..4', **L),
+ Ob(['C10', 'C16', 'C03'], 'keyword', 'jd', 'harness/jd_leaf.c', 'h_keyword', defs=U + ['NB=6'], unwind=8, desc='skipKeyword(true/false/null): exact match, classification, no look-ahead', bound='all inputs of <= 6 bytes x 3 keywords', **L),
+ Ob(['C10', 'C16', 'C03'], 'spaces_nocomments', 'jd', 'harness/jd_leaf.c', 'h_spaces', defs=U + ['NB=4'], unwind=7, desc='skipSpacesAndComments (comments disabled): blanks skipped, EmptyInput vs IncompleteInput, first significant byte latched', bound='all 2^32 4-byte inputs x foundSomething', **L),
+ Ob(['C16', 'C03', 'C11'], 'skipnum', 'jd', 'harness/jd_leaf.c', 'h_skipnum', defs=U + ['NB=5'], unwind=8, desc='skipNumericValue consumes the maximal run of number characters + at most one look-ahead byte', bound='all 5-byte inputs', **L),
+]
